@@ -1,0 +1,7 @@
+//go:build !verif
+
+package filesystem
+
+// verifFault is the fault injection point of the external verification
+// harness. Without the "verif" build tag it does nothing.
+func verifFault(_, _ string) error { return nil }
